@@ -114,7 +114,7 @@ class Exec:
         s.ext = {}; s.ext_prefix = []
         import models
         models.register(s)
-        s.deftypes = {}; s.fns_executed = {}; s.t0 = time.time(); s.samples = []; s.ext_calls = {}; s.known = []
+        s.deftypes = {}; s.fns_executed = {}; s.t0 = time.time(); s.samples = []; s.ext_calls = {}; s.known = []; s.redirects = []
 
     # ---------- solver
     def _check(s, assumptions):
@@ -365,6 +365,17 @@ class Exec:
         if k == 'bytes': return list(v[1])
         if k == 'cbin': return s.binop(st, v[1], (), v[2], s.val(st, v[3], v[2]), s.val(st, v[4], v[2]))
         if k == 'float': return ('f', v[1])
+        if k == 'ccast':
+            x = s.val(st, v[3], v[2]); rf, rt = res(v[2]), res(v[4])
+            if isinstance(x, Ptr): x = s.p2i(x)
+            if v[1] == 'trunc': return simp(z3.Extract(rt.n - 1, 0, x)) if is_sym(x) else mask(x, rt.n)
+            if v[1] == 'zext': return simp(z3.ZeroExt(rt.n - rf.n, x)) if is_sym(x) else x
+            return simp(z3.SignExt(rt.n - rf.n, x)) if is_sym(x) else mask(sgn(x, rf.n), rt.n)
+        if k == 'cicmp': return s.icmp(st, v[1], v[2], s.val(st, v[3], v[2]), s.val(st, v[4], v[2]))
+        if k == 'cselect':
+            c = s.val(st, v[1], IntT(1))
+            if is_sym(c) or c is None: raise Inconclusive('symbolic constant select')
+            return s.val(st, v[3], v[2]) if c else s.val(st, v[4], v[2])
         raise Inconclusive('value kind ' + k)
 
     def globref(s, mod, name):
@@ -706,10 +717,11 @@ class Exec:
                 if m is not None: s.ub_sym(st, b == 0, 'division by zero', m)
             elif b == 0: s.ub(st, 'division by zero')
         elif op in ('shl', 'lshr', 'ashr'):
+            # LLVM: an out-of-range shift amount yields poison (source-level UB is planted as ubsan traps by the front end)
             if bsym:
                 c = z3.UGE(b, n); m = s.feasible(st, c)
-                if m is not None: s.ub_sym(st, c, 'shift amount >= width', m)
-            elif b >= n: s.ub(st, 'shift amount >= width (%d >= %d)' % (b, n))
+                if m is not None: return s.poison_fork(st, c, lambda: s.binop_val(op, flags, n, a, b))
+            elif b >= n: return None
         if not asym and not bsym:
             sa, sb = sgn(a, n), sgn(b, n)
             if op == 'add': r = a + b; ex = sa + sb
@@ -728,36 +740,46 @@ class Exec:
                 q = abs(sa) // abs(sb); q = q if (sa < 0) == (sb < 0) else -q; return mask(sa - q * sb, n)
             elif op == 'shl':
                 r = a << b
-                if 'nuw' in flags and r >> n: s.ub(st, 'nuw overflow in shl')
-                if 'nsw' in flags and sgn(mask(r, n), n) != sa * (1 << b): s.ub(st, 'nsw overflow in shl')
+                if 'nuw' in flags and r >> n: return None
+                if 'nsw' in flags and sgn(mask(r, n), n) != sa * (1 << b): return None
                 return mask(r, n)
             elif op == 'lshr': return a >> b
             elif op == 'ashr': return mask(sa >> b, n)
-            if 'nsw' in flags and not (-(1 << (n - 1)) <= ex < (1 << (n - 1))): s.ub(st, 'signed overflow in ' + op)
-            if 'nuw' in flags and not (0 <= r < (1 << n)): s.ub(st, 'unsigned wrap (nuw) in ' + op)
+            if 'nsw' in flags and not (-(1 << (n - 1)) <= ex < (1 << (n - 1))): return None
+            if 'nuw' in flags and not (0 <= r < (1 << n)): return None
             return mask(r, n)
         A, B = bv(a, n), bv(b, n)
+        bad = None
         if op in ('add', 'sub', 'mul') and flags:
+            bads = []
             if 'nsw' in flags:
-                bad = {'add': lambda: z3.Not(z3.And(z3.BVAddNoOverflow(A, B, True), z3.BVAddNoUnderflow(A, B))),
-                       'sub': lambda: z3.Not(z3.And(z3.BVSubNoOverflow(A, B), z3.BVSubNoUnderflow(A, B, True))),
-                       'mul': lambda: z3.Not(z3.And(z3.BVMulNoOverflow(A, B, True), z3.BVMulNoUnderflow(A, B)))}[op]()
-                m = s.feasible(st, bad)
-                if m is not None: s.ub_sym(st, bad, 'signed overflow in ' + op, m)
+                bads.append({'add': lambda: z3.Not(z3.And(z3.BVAddNoOverflow(A, B, True), z3.BVAddNoUnderflow(A, B))),
+                             'sub': lambda: z3.Not(z3.And(z3.BVSubNoOverflow(A, B), z3.BVSubNoUnderflow(A, B, True))),
+                             'mul': lambda: z3.Not(z3.And(z3.BVMulNoOverflow(A, B, True), z3.BVMulNoUnderflow(A, B)))}[op]())
             if 'nuw' in flags:
-                bad = {'add': lambda: z3.Not(z3.BVAddNoOverflow(A, B, False)), 'sub': lambda: z3.ULT(A, B), 'mul': lambda: z3.Not(z3.BVMulNoOverflow(A, B, False))}[op]()
-                m = s.feasible(st, bad)
-                if m is not None: s.ub_sym(st, bad, 'unsigned wrap (nuw) in ' + op, m)
+                bads.append({'add': lambda: z3.Not(z3.BVAddNoOverflow(A, B, False)), 'sub': lambda: z3.ULT(A, B), 'mul': lambda: z3.Not(z3.BVMulNoOverflow(A, B, False))}[op]())
+            bad = z3.Or(*bads) if len(bads) > 1 else bads[0]
         elif op == 'shl' and flags:
-            if 'nuw' in flags:
-                bad = z3.LShR(A << B, B) != A; m = s.feasible(st, bad)
-                if m is not None: s.ub_sym(st, bad, 'nuw overflow in shl', m)
-            if 'nsw' in flags:
-                bad = ((A << B) >> B) != A; m = s.feasible(st, bad)
-                if m is not None: s.ub_sym(st, bad, 'nsw overflow in shl', m)
+            bads = []
+            if 'nuw' in flags: bads.append(z3.LShR(A << B, B) != A)
+            if 'nsw' in flags: bads.append(((A << B) >> B) != A)
+            bad = z3.Or(*bads) if len(bads) > 1 else bads[0]
         elif op == 'sdiv' or op == 'srem':
-            bad = z3.And(A == (1 << (n - 1)), B == mask(-1, n)); m = s.feasible(st, bad)
-            if m is not None: s.ub_sym(st, bad, 'signed division overflow', m)
+            ovf = z3.And(A == (1 << (n - 1)), B == mask(-1, n)); m = s.feasible(st, ovf)
+            if m is not None: s.ub_sym(st, ovf, 'signed division overflow', m)
+        if bad is not None:
+            # LLVM: nsw/nuw overflow yields poison, not immediate UB
+            m = s.feasible(st, bad)
+            if m is not None: return s.poison_fork(st, bad, lambda: s.binop_val(op, flags, n, a, b))
+        return s.binop_val(op, flags, n, a, b)
+
+    def poison_fork(s, st, bad, mk):
+        good = s.feasible(st, z3.Not(bad))
+        if good is None: return None
+        raise Fork([(bad, None), (z3.Not(bad), mk())], 'ret')
+
+    def binop_val(s, op, flags, n, a, b):
+        A, B = bv(a, n), bv(b, n)
         if op == 'add': r = A + B
         elif op == 'sub': r = A - B
         elif op == 'mul': r = A * B
@@ -981,6 +1003,10 @@ class Exec:
             if not isinstance(p, Ptr) and p is not None and not is_sym(p): p = s.i2p(p)
             if not (isinstance(p, Ptr) and isinstance(p.obj, tuple)): s.ub(st, 'indirect call through non-function pointer %r' % (p,))
             name = p.obj[1]
+        if s.redirects:
+            for rx, tgt in s.redirects:
+                if rx.search(name):
+                    s.ext_calls['stub:' + tgt] = s.ext_calls.get('stub:' + tgt, 0) + 1; name = tgt; break
         if name.startswith('llvm.'):
             r = s.intrinsic(st, name, avs, args)
             if dst is not None: fr.env[dst] = r
@@ -1139,7 +1165,7 @@ def run_harness(ll_paths, entry, params=None, concrete=None, limits=None, allowe
     try:
         mods = [Module(open(p).read()) for p in ll_paths]
     except IRError as e:
-        return {'status': 'inconclusive', 'reason': 'IR front end: %s' % e, 'harness': entry}
+        return {'status': 'inconclusive', 'reason': 'IR front end: %s' % e, 'harness': entry, 'violations': []}
     ex = Exec(mods, limits, params, concrete, allowed_throws, leakcheck)
     res_ = {'harness': entry, 'params': params or {}}
     try:
